@@ -255,9 +255,10 @@ def main(ctx):
         return False
 
     def one(case, rec):
-        descr, nrows, delim, voff, writer, readers = case
-        d = make_text_table(descr, nrows, delim, voff)
-        keep = d.copy()
+        descr, nrows, delim, voff, writer, readers = case[:6]
+        keep = make_text_table(descr, nrows, delim, voff)
+        d = T.relayout(keep, case[6] if len(case) > 6 else "contig")
+        snap = T.base_bytes(d)
         fn = os.path.join(rec.tmp, "c04.rec")
         if os.path.exists(fn):
             os.unlink(fn)
@@ -266,7 +267,7 @@ def main(ctx):
         except Exception as e:
             return rec.fail(case, "%s raised %s: %s" % (writer, type(e).__name__, str(e)[:160]))
         calls = 1
-        if d.dtype.descr != keep.dtype.descr or d.tobytes() != keep.tobytes():
+        if d.dtype.descr != keep.dtype.descr or d.tobytes() != keep.tobytes() or T.base_bytes(d) != snap:
             return rec.fail(case, "%s modified the array passed to it" % writer)
         raw = open(fn, "rb").read()
         offset = 0
@@ -335,6 +336,13 @@ def main(ctx):
                         ws = ["sfile.write", "Recfile.write"]
                     for w in ws:
                         units.append((descr, nrows, delim, voff, w, "all"))
+    # memory layouts of the input (strided / reversed / offset views, read-only)
+    for ti, descr in enumerate(tables[:n1:4] + tables[n1:n1 + 6]):
+        for nrows in (2, 3):
+            for delim in delims[:2]:
+                for layout in T.LAYOUTS[1:]:
+                    for w in ("sfile.write", "Recfile.write"):
+                        units.append((descr, nrows, delim, voffs[0], w, "all", layout))
     ctx.quiet_workers = True   # the C++ reader chats on stderr ("character does not match delim")
     ctx.lattice("text-roundtrip", units, one,
                 bounds=dict(tables=len(tables), one_field_tables=n1, rows=[1, 3], delims=[repr(x) for x in delims],
